@@ -158,14 +158,15 @@ def step (st : St) (op obs : List String) : St × Option String :=
         match implObs with
         | none => (st, some "BAD pick observation")
         | some io =>
-          if (kv obs "dataok") == some "0" then (st, some "SPEC notok:data") else
+          if !st.specDead && (kv obs "dataok") == some "0" then (st, some "SPEC notok:data") else
+          let dok := if st.specDead then (kv obs "dataok").getD "1" else "1"
           let (st1, bad) := specPick st pred flow io
           match bad with
           | some m => (st1, some m)
           | none =>
             let mine := match r with
               | .none sg => s!"none sig={sg.bits} {stateStr x'}"
-              | .range a b f => s!"range={a}..{b} fresh={if f then 1 else 0} dataok=1 {stateStr x'}"
+              | .range a b f => s!"range={a}..{b} fresh={if f then 1 else 0} dataok={dok} {stateStr x'}"
             finish { st1 with x := x' } mine obs
     | _, _, _ => (st, some "BAD pick")
   | ["load", cap, force] =>
